@@ -16,7 +16,8 @@ RULE = (
     "permutation, superset), each sent through one entry point: PSplines.predict (1-D, 2-D, with and without explicit "
     "fit domain), LocalPolynomial.predict (1-D, 2-D), DenseFunctionalData.smooth/.mean/.covariance(points=...), "
     "IrregularFunctionalData.smooth/.mean/.covariance(points=...), methods PS and LP; domains [0,1], [1,365], "
-    "[1000,1001], [-3,2]. Non-trivial: the responses are not constant and at least one further query set has a "
+    "[1000,1001], [-3,2], [-1,0], [-364,0], [-1,1], [-5,-2] (starting at, ending at, straddling, away from 0; explicit fit "
+    "bounds equal to 0). Non-trivial: the responses are not constant and at least one further query set has a "
     "different range than Q; distinct by content hash"
 )
 PARTIAL = [
@@ -27,7 +28,14 @@ PARTIAL = [
 TRUSTED_EXTRA = ["capture of PSplines.fit results / LocalPolynomial.predict arguments by subclassing from outside (no source hook)"]
 
 EPS = 2.220446049250313e-16
-DOMAINS = {"unit": (Fraction(0), Fraction(1)), "doy": (Fraction(1), Fraction(364)), "shift1000": (Fraction(1000), Fraction(1)), "neg": (Fraction(-3), Fraction(5))}
+DOMAINS = {
+    # name: (lo, scale).  Zero is a special value for code that tests bounds by truthiness: domains starting at 0,
+    # ending exactly at 0, straddling 0 (symmetric and not), entirely negative, far from 0.
+    "unit": (Fraction(0), Fraction(1)), "doy": (Fraction(1), Fraction(364)), "shift1000": (Fraction(1000), Fraction(1)),
+    "neg": (Fraction(-3), Fraction(5)), "end0": (Fraction(-1), Fraction(1)), "end0wide": (Fraction(-364), Fraction(364)),
+    "sym": (Fraction(-1), Fraction(2)), "allneg": (Fraction(-5), Fraction(3)),
+}
+DOM_CHOICES = ["unit", "unit", "doy", "shift1000", "neg", "end0", "end0", "end0wide", "sym", "allneg"]
 ENTRIES = [
     "PSplines.predict", "PSplines.predict", "PSplines.predict2d", "LocalPolynomial.predict", "LocalPolynomial.predict2d",
     "DenseFunctionalData.smooth", "DenseFunctionalData.smooth", "DenseFunctionalData.smooth2d", "DenseFunctionalData.mean",
@@ -97,7 +105,7 @@ def _scale_pts(dom, pts):
 def _case(rng: Rng, tier, entry=None, force=None):
     force = force or {}
     entry = entry or rng.choice(ENTRIES)
-    dom = force.get("dom", rng.choice(["unit", "unit", "doy", "shift1000", "neg"]))
+    dom = force.get("dom", rng.choice(DOM_CHOICES))
     method = force.get("method", rng.choice(["PS", "LP"]))
     if entry.startswith("PSplines"):
         method = "PS"
@@ -129,15 +137,17 @@ def _case(rng: Rng, tier, entry=None, force=None):
         case["y"] = [rs(t) for t in _curve(rng, g, ykind)]
         gs = sorted(set(g))
         Q = _queries(rng, gs)
-        if entry == "PSplines.predict" and rng.random() < 0.3:
-            # explicit fit domain wider than the data
-            case["fit_domain"] = [rs(lo - sc * Fraction(1, 4)), rs(lo + sc * Fraction(3, 2))]
+        if entry == "PSplines.predict" and rng.random() < 0.4:
+            # explicit fit domain: wider than the data on both sides / on one side, or exactly the data range given
+            # explicitly (for the domains touching 0 this passes an explicit bound equal to 0)
+            a, b = rng.choice([(Fraction(1, 4), Fraction(1, 2)), (Fraction(0), Fraction(1, 2)), (Fraction(1, 4), Fraction(0)), (Fraction(0), Fraction(0)), (Fraction(0), Fraction(0))])
+            case["fit_domain"] = [rs(lo - sc * a), rs(lo + sc + sc * b)]
         case["Q"] = [rs(t) for t in _scale_pts(dom, Q)]
         case["variants"] = [[nm, [rs(t) for t in _scale_pts(dom, v)]] for nm, v in _variants(rng, Q, gs)]
     elif two_d:
         m1, m2 = rng.randint(5, 8), rng.randint(5, 9)
         g1, g2 = _grid01(rng, m1), _grid01(rng, m2)
-        dom2 = rng.choice(["unit", "neg", "doy"])
+        dom2 = rng.choice(["unit", "neg", "doy", "end0", "sym", "allneg"])
         case["dom2"] = dom2
         case["x"] = [rs(t) for t in _scale_pts(dom, g1)]
         case["x2"] = [rs(t) for t in _scale_pts(dom2, g2)]
@@ -208,18 +218,18 @@ def _case(rng: Rng, tier, entry=None, force=None):
             case["variants"] = [["sub", Qs[1:3]], ["thin", Qs[::2]], ["single", [Qs[2]]], ["perm", [Qs[2], Qs[0], Qs[3], Qs[1]]], ["super", sorted(set(Qs) | {case["obs"][0]["t"][0]}, key=F)]]
             case["degree"] = rng.choice([1, 2])
             case["hu"] = rs(rng.choice([Fraction(3, 4), Fraction(1)]))
-    if method == "LP" and not entry.startswith(("PSplines", "LocalPolynomial")) and not two_d and dom == "unit" and rng.random() < 0.5:
+    if method == "LP" and not entry.startswith(("PSplines", "LocalPolynomial")) and not two_d and dom in ("unit", "end0") and rng.random() < 0.5:
         case["default_bw"] = True  # the entry point's own default bandwidth (a function of the DATA, not of the query set)
     return case
 
 
 def gen_cases(rng: Rng, tier):
-    n = dict(quick=150, thorough=2200)[tier]
+    n = dict(quick=160, thorough=2400)[tier]
     k = 0
     # structured head: every entry point with both methods, away from [0,1] too
     for entry in sorted(set(ENTRIES)):
         for method in ("PS", "LP"):
-            for dom in ("unit", "doy"):
+            for dom in ("unit", "doy", "end0"):
                 yield _case(rng, tier, entry, dict(method=method, dom=dom, nonconst=True))
                 k += 1
     while k < n:
